@@ -50,7 +50,7 @@ Conts == {"kinc", "kdup", "kfail", "kodd", "kid"}
 Norm(monad, r) == IF ~r.ok /\ monad = "option" THEN [r EXCEPT !.e = "none"] ELSE r
 
 WithLog(r, lg) == [ok |-> r.ok, v |-> r.v, e |-> r.e, log |-> lg]
-RECURSIVE Eval(_, _), EvalAll(_, _, _), ChainFrom(_, _, _, _, _), TravFrom(_, _, _, _, _, _), FoldFrom(_, _, _, _, _, _), SuppFrom(_, _, _, _, _, _)
+RECURSIVE Eval(_, _), EvalAll(_, _, _), ChainFrom(_, _, _, _, _), TravFrom(_, _, _, _, _, _), FoldFrom(_, _, _, _, _, _), SuppFrom(_, _, _, _, _, _, _)
 \* operands are values: the caller has evaluated ALL of them, left to right, before the combinator runs
 EvalAll(ps, monad, i) == IF i > Len(ps) THEN <<>> ELSE <<Eval(ps[i], monad)>> \o EvalAll(ps, monad, i + 1)
 LogsOf(rs) == LET RECURSIVE L(_)
@@ -73,14 +73,19 @@ FoldFrom(xs, i, acc, lg, k, monad) ==
 \* if nothing has failed yet - and then exactly once.
 \* bad = the first failure so far (or NoFail).
 NoFail == [ok |-> TRUE, v |-> <<>>, e |-> "-"]
-SuppFrom(steps, i, acc, lg, bad, monad) ==
+\* ChainN builders also take steps computed from the value applied just before (prev): "kprev" (FlatMap: a continuation, named in
+\* st.p.name, receives prev) and "mprev" (Map: a plain function of prev, here prev \o <<9>>) - callbacks like suppliers.
+SuppFrom(steps, i, acc, lg, bad, prev, monad) ==
   IF i > Len(steps) THEN (IF bad.ok THEN WithLog(Ok(acc), lg) ELSE WithLog(bad, lg))
-  ELSE LET st == steps[i] IN
-       IF st.t \in {"sup", "func"} /\ ~bad.ok THEN SuppFrom(steps, i + 1, acc, lg, bad, monad)          \* never invoked
-       ELSE LET r == Eval(st.p, monad)
-                lg2 == IF st.t \in {"sup", "func"} THEN Append(lg, st.id) \o r.log ELSE lg \o r.log
+  ELSE LET st == steps[i]
+           callback == st.t \in {"sup", "func", "kprev", "mprev"} IN
+       IF callback /\ ~bad.ok THEN SuppFrom(steps, i + 1, acc, lg, bad, prev, monad)          \* never invoked
+       ELSE LET r == CASE st.t = "kprev" -> WithLog(Norm(monad, Cont(st.p.name, prev)), <<>>)
+                       [] st.t = "mprev" -> WithLog(Ok(prev \o <<9>>), <<>>)
+                       [] OTHER -> Eval(st.p, monad)
+                lg2 == IF callback THEN Append(lg, st.id) \o r.log ELSE lg \o r.log
                 bad2 == IF bad.ok /\ ~r.ok THEN [ok |-> FALSE, v |-> <<>>, e |-> r.e] ELSE bad
-            IN SuppFrom(steps, i + 1, acc \o r.v, lg2, bad2, monad)
+            IN SuppFrom(steps, i + 1, acc \o r.v, lg2, bad2, IF r.ok THEN r.v ELSE prev, monad)
 
 Eval(p, monad) ==
   CASE p.k = "unit" -> WithLog(Ok(p.v), <<>>)
@@ -96,7 +101,7 @@ Eval(p, monad) ==
     [] p.k = "chain" -> LET r == Eval(p.arg, monad) IN ChainFrom([ok |-> r.ok, v |-> r.v, e |-> r.e], r.log, p.ks, 1, monad)
     [] p.k = "trav"  -> TravFrom(p.xs, 1, <<>>, <<>>, p.kk, monad)
     [] p.k = "foldm" -> FoldFrom(p.xs, 1, <<>>, <<>>, p.kk, monad)
-    [] p.k = "supp"  -> LET r == SuppFrom(p.steps, 1, <<>>, <<>>, NoFail, monad) IN
+    [] p.k = "supp"  -> LET r == SuppFrom(p.steps, 1, <<>>, <<>>, NoFail, <<>>, monad) IN
                         IF r.ok THEN [r EXCEPT !.log = Append(@, p.fid)] ELSE r
     [] p.k = "rec"   -> \* Recover* / OrElse* / Or*: successes untouched, the handler runs only on failure
          LET r == Eval(p.arg, monad) IN
